@@ -171,7 +171,9 @@ pub fn lz4_frame_variant(bytes: &[u8], v: u64) -> Vec<u8> {
             x ^= x << 13;
             x ^= x >> 7;
             x ^= x << 17;
-            let n = (1 + (x % 9000) as usize).min(bytes.len() - pos);
+            // the very first piece is often shorter than the 12-byte begin-of-run header (a writer
+            // that flushes right after the marker or the run number)
+            let n = if pos == 0 && (v >> 13) % 2 == 0 { 1 + (x % 14) as usize } else { 1 + (x % 9000) as usize }.min(bytes.len() - pos);
             enc.write_all(&bytes[pos..pos + n]).expect("lz4 write");
             pos += n;
         }
